@@ -23,7 +23,7 @@ import vlib
 
 THEOREMS = [
     # K per kernel
-    "cmp_pointwise", "and_pointwise", "or_pointwise_partial", "or_pointwise_unsound",
+    "cmp_pointwise", "and_pointwise", "or_pointwise", "or_regression",
     "not_pointwise", "select_pointwise", "arith_pointwise_partial", "div_pointwise_partial",
     "arith_add_pointwise_unsound", "rem_pointwise", "rem_zero_is_null", "rem_null_slot_faults",
     "div_null_slot_faults",
@@ -37,22 +37,21 @@ THEOREMS = [
     "batch_independent_binary", "batch_independent_arith", "batch_independent_or",
     "batch_independent_and", "batch_independent_cmp",
     # reason tags = forced hypotheses (node level); casts; IS NULL
-    "arith_no_tag", "or_no_tag", "select_abs", "cast_pointwise", "isnull_pointwise",
+    "arith_no_tag", "select_abs", "select_abs_bool", "select_abs_str", "cast_pointwise", "isnull_pointwise",
     # whole expression trees
     "evalK_len", "eval_tree_pointwise", "like_abs", "substring_abs", "replace_abs", "repeat_abs",
     "concat_abs", "neg_abs",
     # LIKE
-    "like_dotfree_partial", "like_pointwise_partial", "like_pointwise_unsound", "like_newline_witness",
-    "like_invalid_regex_panics",
+    "like_pointwise", "like_regression",
     # constant folding
-    "fold_eq_eval_unsound", "fold_rem_zero_is_null", "fold_overflow_panics",
+    "fold_regression", "fold_rem_zero_is_null", "fold_overflow_panics",
     "fold_cast_out_of_range_unknown", "const_of_get0", "foldBin_sound", "foldUn_sound",
-    "fold_eq_eval_partial", "arith_strict", "cmp_strict", "concat_strict", "neg_strict", "not_strict",
+    "fold_eq_eval", "and_fold_value", "or_fold_value", "arith_strict", "cmp_strict", "concat_strict", "neg_strict", "not_strict",
 ]
 
 # The witnesses of the `…_unsound` theorems, as requests (replayed on the implementation).
 WITNESSES = [
-    ("or_pointwise_unsound", "(k 1 (or #0 #1) (bool nt) (bool vf))"),
+    ("or_regression", "(k 1 (or #0 #1) (bool nt) (bool vf))"),
     ("arith_add_pointwise_unsound", "(k 1 (+ #0 #1) (i32 n2147483647) (i32 v1))"),
     ("null_slot_never_faults_unsound", "(k 2 (+ #0 #1) (i32 v1 n2147483647) (i32 v2 v1))"),
     ("rem_zero_is_null", "(k 2 (% #0 #1) (i32 v1 v7) (i32 v0 n0))"),
